@@ -403,4 +403,17 @@ theorem write_file_mode (c : KeyWrite.Cls) (hc : c ≠ .ed) (hp : Bool) (p : Pas
     split <;> exact ⟨_, rfl, rfl, fun he => by subst he; exact (new_file_private umask).1⟩
   · exact absurd rfl hc
 
+open PV.KeyWrite in
+/-- every destination state: a file that `write_private_key_file` CREATES (nothing at the path, or a
+    dangling symlink) is private to the owner for every umask; existing files keep their mode; with a
+    missing directory nothing is created at all (the error is passed on) -/
+theorem created_file_private (d : Dest) (umask m : Nat) (h : openDest d umask = .ok (m, true)) :
+    m &&& 0o077 = 0 ∧ m &&& 0o600 = m := by
+  cases d <;> simp [openDest] at h
+  all_goals (subst h; exact new_file_private umask)
+
+open PV.KeyWrite in
+theorem missing_parent_creates_nothing (umask : Nat) :
+    openDest .missingParent umask = .error .fileNotFound := rfl
+
 end PV.Props.C36
